@@ -200,6 +200,17 @@ func init() {
 			for _, pre := range prefixes {
 				rec(pre, nil, 0)
 			}
+			// one-byte elements with id 0 and a non-zero length nibble (0x0L is not a padding byte): the
+			// decoder yields an element with id 0, which only Unmarshal can create; it must re-marshal
+			hdr12 := []byte{0x90, 0x60, 0, 1, 0, 0, 0, 2, 0, 0, 0, 3}
+			id0a := append(append([]byte{}, hdr12...), 0xBE, 0xDE, 0, 1, 0x01, 0xAA, 0xBB, 0x00, 0x99)
+			id0b := append(append([]byte{}, hdr12...), 0xBE, 0xDE, 0, 5, 0x0F)
+			id0b = append(append(id0b, bytes.Repeat([]byte{0x5A}, 16)...), 0, 0, 0, 0x77)
+			id0c := append(append([]byte{}, hdr12...), 0xBE, 0xDE, 0, 2, 0x00, 0x01, 0xAA, 0xBB, 0x30, 0xCC, 0x00, 0x00)
+			for _, b := range [][]byte{id0a, id0b, id0c} {
+				emit(101, TList{TB(b)})
+				emit(102, TList{TB(b)})
+			}
 			for i := 0; i < n; i++ {
 				c := r.Fork(uint64(i))
 				k := 1 + c.Intn(3)
